@@ -46,6 +46,10 @@ def disc (s : Stack) : TStore SvcKey × List (Bool × SvcKey × Addr) := (s.foun
 @[simp] theorem disc_with_findLog (s : Stack) (x : List (Nat × Nat)) : disc { s with findLog := x } = disc s := rfl
 @[simp] theorem disc_with_findMarks (s : Stack) (x : List (Nat × Nat)) : disc { s with findMarks := x } = disc s := rfl
 @[simp] theorem disc_with_ansLog (s : Stack) (x : List (Nat × Addr × Nat × Nat)) : disc { s with ansLog := x } = disc s := rfl
+@[simp] theorem disc_with_lisLog (s : Stack) (x : List (LId × Bool × SvcKey × Addr)) : disc { s with lisLog := x } = disc s := rfl
+@[simp] theorem disc_logLis (s : Stack) (id : LId) (o : Bool) (k : SvcKey) (a : Addr) : disc (s.logLis id o k a) = disc s := rfl
+@[simp] theorem disc_with_lisDup (s : Stack) (x : Bool) : disc { s with lisDup := x } = disc s := rfl
+@[simp] theorem disc_markDup (s : Stack) (d : Bool) : disc (s.markDup d) = disc s := rfl
 @[simp] theorem disc_logAnswer (s : Stack) (i : Nat) (a : Addr) (d : Nat) : disc (s.logAnswer i a d) = disc s := rfl
 @[simp] theorem disc_markFind (s : Stack) (n : Nat) : disc (s.markFind n) = disc s := rfl
 @[simp] theorem disc_with_offLog (s : Stack) (x : List (Nat × OEv × Nat)) : disc { s with offLog := x } = disc s := rfl
@@ -214,13 +218,13 @@ def disc (s : Stack) : TStore SvcKey × List (Bool × SvcKey × Addr) := (s.foun
   rw [foldl_pres disc _ (fun s p => by frame_cases)]
 
 @[simp] theorem disc_watchService (s : Stack) (f : Service) (l : Listener) : disc (s.watchService f l) = disc s := by
-  unfold watchService; simp only []; rw [disc_replay]; rfl
+  unfold watchService; simp only []; rw [disc_markDup, disc_replay]; rfl
 @[simp] theorem disc_stopWatchService (s : Stack) (f : Service) (l : Listener) : disc (s.stopWatchService f l) = disc s := by
   unfold stopWatchService; simp only []; split
   · simp
   · rw [disc_replay]; rfl
 @[simp] theorem disc_watchAllServices (s : Stack) (id : LId) : disc (s.watchAllServices id) = disc s := by
-  unfold watchAllServices; rw [disc_replay]; rfl
+  unfold watchAllServices; rw [disc_markDup, disc_replay]; rfl
 @[simp] theorem disc_stopWatchAllServices (s : Stack) (id : LId) : disc (s.stopWatchAllServices id) = disc s := by
   unfold stopWatchAllServices; split
   · simp
